@@ -479,7 +479,7 @@ func (c *CheckCtx) auditSimplifier() {
 	}
 	defer sol.Close()
 	st := NewStore()
-	bad, unk := 0, 0
+	bad, unk, large := 0, 0, 0
 	// lemma instances are terms from other stores; print them directly
 	n := 0
 	seen := map[uint64]bool{}
@@ -496,6 +496,10 @@ func (c *CheckCtx) auditSimplifier() {
 		if a.raw.w < 0 {
 			continue
 		}
+		if termSize(a.raw, 3000) >= 3000 {
+			large++ // e.g. lookups through a whole file image: skipped, counted
+			continue
+		}
 		neq = &Term{op: OpNot, w: 0, a: []*Term{{op: OpEq, w: 0, a: []*Term{a.raw, a.res}, id: -2}}, id: -3}
 		_ = st
 		v, _, _ := sol.Check([]*Term{renumber(neq)}, nil)
@@ -507,7 +511,10 @@ func (c *CheckCtx) auditSimplifier() {
 			unk++
 		}
 	}
-	c.Extra["simplifier_lemmas"] = map[string]interface{}{"distinct_instances": n, "invalid": bad, "unknown": unk}
+	c.Extra["simplifier_lemmas"] = map[string]interface{}{"distinct_instances": n, "invalid": bad, "unknown": unk, "skipped_larger_than_3000_nodes": large}
+	if unk > 0 {
+		c.Undecided = append(c.Undecided, fmt.Sprintf("obligation=simplifier reason=%q", fmt.Sprintf("%d rewrite instances could not be audited (solver unknown)", unk)))
+	}
 }
 
 // renumber gives every node of a foreign DAG a fresh unique id so that the
@@ -733,4 +740,21 @@ func stepCallCycle(L *Loaded) string {
 		return ""
 	}
 	return findCycle(step)
+}
+
+// termSize counts DAG nodes up to a cap.
+func termSize(t *Term, cap int) int {
+	seen := map[*Term]bool{}
+	var rec func(t *Term)
+	rec = func(t *Term) {
+		if len(seen) >= cap || seen[t] {
+			return
+		}
+		seen[t] = true
+		for _, a := range t.a {
+			rec(a)
+		}
+	}
+	rec(t)
+	return len(seen)
 }
